@@ -653,6 +653,44 @@ def surface_fallback(P, rep, rule="G3.surface"):
                       key=rule + "|fullscan", witness="a depth surface mixing small and large triangles")
 
 
+def triangle_pairing(P, rep, rule="G3.surface.pairing"):
+    """every in_triangle test uses one triangle: its vertices, its precomputed coefficients and the reported index belong together"""
+    rep.rule(rule, "Surface::local_value: every call in_triangle(triangles[i], in_triangle_precomputed[j], ...) has i == j, and the "
+                   "SurfaceValueInfo returned on success carries that same index")
+    F = P.func("WorldBuilder::Objects::Surface::local_value")
+    R = lambda e: norm.render(P, e, nocast=True, subst=norm.naming_locals(P, F)).replace(" ", "")
+    n = 0
+    for c in F.walk():
+        if c.get("k") not in ("CallExpr",) or P.d(c.get("callee")).get("n") != "in_triangle":
+            continue
+        a = c["c"][1:]
+        s0, s1 = astq.subscript(sc(a[0])), astq.subscript(sc(a[1]))
+        if not s0 or not s1:
+            rep.unknown(rule, "in_triangle called with %s, %s" % (R(a[0])[:40], R(a[1])[:40]))
+            continue
+        n += 1
+        i0, i1 = R(s0[1]), R(s1[1])
+        problems = []
+        if i0 != i1:
+            problems.append("vertices of triangle [%s] are tested with the coefficients of triangle [%s]" % (i0, i1))
+        g = astq.enclosing(F, c, ("IfStmt",))
+        if g is not None and any(y is c for y in F.walk(g["c"][0])):
+            for r in F.walk(g["c"][1]):
+                if r.get("k") == "ReturnStmt" and r.get("c"):
+                    els = [z for z in F.walk(r["c"][0]) if z.get("k") == "InitListExpr"]
+                    if els and els[0].get("c"):
+                        got = R(els[0]["c"][0])
+                        if got != i0:
+                            problems.append("the result reports triangle [%s]" % got)
+        if problems:
+            rep.violation(rule, "in_triangle at line %s: %s" % (c.get("l"), "; ".join(problems)), F.nloc(c), F.qn, norm.render(P, c)[:140],
+                          "the depth comes from another triangle than the one that contains the point", key="%s|%s" % (rule, i0 + "/" + i1),
+                          witness="a spherical depth surface across the date line with many points, query east of 180")
+        else:
+            rep.ok(rule, "in_triangle at line %s: triangle [%s] throughout" % (c.get("l"), i0), F.nloc(c), F.qn)
+    rep.floor(rule, n, 6, "in_triangle tests in Surface::local_value")
+
+
 def alias_callers(P, rep, rule="WHO.alias"):
     rep.rule(rule, "the longitude-alias-unaware implementations polygon_contains_point_implementation and "
                    "BoundingBox::point_inside_implementation are called only from their alias-aware wrappers")
